@@ -3,7 +3,7 @@
 set -e
 cd "$(dirname "$0")"
 export PYTHONHASHSEED=0
-/venv/bin/python translate/t1_tables.py "${VERIF_REPO:-/repo}" coq/Gen
+/venv/bin/python translate/t1_tables.py "${VERIF_REPO:-/repo}" coq/Gen || [ $? -eq 3 ]   # 3: a section fell back to its recorded text; the checks report it
 cd coq
 coq_makefile -f _CoqProject -o Makefile >/dev/null
 timeout 3000 make -j16 > .build.log 2>&1 || { tail -40 .build.log; echo "setup FAILED: make"; exit 1; }
